@@ -70,6 +70,8 @@ POOLS = [
     [0, 0, 1],
     ["5/2", "7/3", 5, 10, "1/10"],
     [1, 4, 9, 16],
+    # beyond 2**53: any float intermediate in a function that promises exact arithmetic becomes visible
+    [10**17 + 1, 10**17 + 3, 3 * 10**16 + 7, 1, "10000000000000001/3"],
 ]
 SAT_BY_TYPE = {
     "approval": ["Cardinality_Sat", "Cost_Sat", "CC_Sat", "Relative_Cardinality_Sat", "Effort_Sat", "Cost_Sqrt_Sat",
@@ -85,9 +87,9 @@ FLOAT_MEAS = {"Cost_Sqrt_Sat"}
 def budget(tier):
     global SHARD
     if tier == "quick":
-        return 330
+        return NSWEEP + 330
     SHARD = 10          # thorough cases carry every feasible allocation x every measure: ~10x the text
-    return 3500
+    return NSWEEP + 3500
 
 
 def _feasible_allocs(costs, b):
@@ -100,11 +102,69 @@ def _feasible_allocs(costs, b):
     return out
 
 
+NSWEEP = 72   # 3 systematic histogram cases for every bin count 2..25, in every run
+
+
+def _key(ranks):
+    return ",".join(str(r) for r in sorted(ranks))
+
+
+def _dyadic(x):
+    d = pb.F(x).denominator
+    return d & (d - 1) == 0 and d <= 1 << 20
+
+
+def gen_sweep(rng, i):
+    """Histogram sweep: bin count k = 2 + i % 24 with a voter on EVERY bin edge j*max/(k-1), j = 0..k-1, some voters
+    between edges and one above max; max_satisfaction passed as int / mpq / Fraction / float.
+    variant 0: prescribed satisfactions (Table_Sat, a SatisfactionMeasure defined by the harness), max = int 1;
+    variant 1: the same with another max (integral or fractional) and Fraction-typed satisfactions;
+    variant 2: Relative_Cardinality_Sat on 2(k-1) unit-cost projects (satisfaction j/(k-1) exactly), max = int 1."""
+    k = 2 + i % 24
+    variant = i // 24
+    multi = rng.random() < 0.5
+    base = {"btype": "approval", "multi": multi, "ask": [], "cats": None, "meanq": [], "giniq": [], "sweep": variant}
+    if variant == 2:
+        h = k - 1
+        n = 2 * h
+        ballots = [list(range(j)) + list(range(h, h + h - j)) for j in range(k)]
+        ballots.append(list(range(n)))
+        ballots += [list(rng.choice(ballots)) for _ in range(3)]
+        rng.shuffle(ballots)
+        hist = [{"k": k, "max": ["lit", "1/1"], "mtype": "auto", "omit_k": k == 21},
+                {"k": k, "max": ["lit", "1/1"], "mtype": rng.choice(["mpq", "fraction", "float"])}]
+        base.update({"costs": ["1/1"] * n, "budget": pb.qs(n), "order": list(range(n)), "ballots": ballots,
+                     "satq": [{"alloc": list(range(h)), "meas": "Relative_Cardinality_Sat", "hist": hist}]})
+        return base
+    M = Fraction(1) if variant == 0 else pb.F(rng.choice([2, 3, 7, "1/2", "5/3", "7/2", 10, "1/3"]))
+    vals = [M * j / (k - 1) for j in range(k)]
+    vals += [M * (2 * rng.randrange(0, k - 1) + 1) / (2 * (k - 1)) for _ in range(2)]
+    vals.append(M + Fraction(1, 2))
+    subsets = [[b for b in range(5) if (v >> b) & 1] for v in range(32)]
+    rng.shuffle(subsets)
+    table = {_key(subsets[v]): pb.qs(x) for v, x in enumerate(vals)}
+    ballots = [subsets[v] for v in range(len(vals))]
+    ballots += [list(rng.choice(ballots)) for _ in range(4)]
+    rng.shuffle(ballots)
+    mtypes = ["auto", "mpq", "fraction"] + (["float"] if _dyadic(M) else [])
+    if variant == 1:
+        mtypes = ["auto", rng.choice(mtypes[1:])]
+    hist = [{"k": k, "max": ["lit", pb.qs(M)], "mtype": t, "omit_k": (k == 21 and t == "auto")} for t in mtypes]
+    base.update({"costs": ["1/1"] * 5, "budget": "5/1", "order": list(range(5)), "ballots": ballots,
+                 "table": {"type": "mpq" if variant == 0 else rng.choice(["mpq", "fraction"]), "vals": table},
+                 "satq": [{"alloc": [0], "meas": "Table_Sat", "hist": hist}]})
+    return base
+
+
 def gen(rng, i, tier):
+    if i < NSWEEP:
+        return gen_sweep(rng, i)
+    i -= NSWEEP
     btype = ["approval", "approval", "approval", "cardinal", "cumulative", "ordinal"][i % 6]
     n = rng.choice([0, 1, 2, 3, 3, 4, 4, 5, 5, 6])
     pool = rng.choice(POOLS)
-    want_cats = btype == "approval" and n > 0 and rng.random() < 0.5
+    big = pool is POOLS[-1]
+    want_cats = btype == "approval" and n > 0 and rng.random() < 0.5 and not big
     if want_cats:
         pool = [c for c in pool if pb.F(c) > 0]     # category shares divide by the cost of every ballot
     costs = [pb.F(rng.choice(pool)) for _ in range(n)]
@@ -174,7 +234,8 @@ def gen(rng, i, tier):
     for a in allocs:
         for m in (measures if tier == "thorough" else rng.sample(measures, min(len(measures), 2))):
             hist = []
-            for _ in range(2 if tier == "quick" else 4):
+            # (no histogram on costs beyond 2**53: the code's own int*int/int is a float division there)
+            for _ in range(0 if big else 2 if tier == "quick" else 4):
                 k = rng.randrange(2, 26)
                 hm = rng.randrange(5)
                 if m in FLOAT_MEAS:
@@ -185,7 +246,7 @@ def gen(rng, i, tier):
                     mx = ["max"]
                 else:
                     mx = ["lit", pb.qs(rng.choice([1, 2, 3, 4, "1/2", "7/3"]))]
-                hist.append([k, mx])
+                hist.append({"k": k, "max": mx, "mtype": rng.choice(["auto", "auto", "mpq", "fraction"])})
             satq.append({"alloc": a, "meas": m, "hist": hist})
     ask = ["instance", "profile", "votes_count", "voter_flow"]
     if multi and not (i % 12 == 0 and i < 480):
@@ -198,12 +259,14 @@ def gen(rng, i, tier):
                 "alloc": rng.choice(allocs)}
     meanq, giniq = [], []
     for _ in range(2):
-        vals = [pb.qs(rng.choice([0, 1, 2, 3, -1, "1/2", "-7/3", "5/3", 10])) for _ in range(rng.randrange(0, 6))]
+        vals = [pb.qs(rng.choice([0, 1, 2, 3, -1, "1/2", "-7/3", "5/3", 10, 10**17 + 1, "1/3000000000000000007"]))
+                for _ in range(rng.randrange(0, 6))]
         if rng.random() < 0.3:
             meanq.append([[v, None] for v in vals])            # plain numbers
         else:
             meanq.append([[v, rng.choice([0, 1, 1, 2, 3, 5])] for v in vals])
-        gv = [pb.qs(rng.choice([0, 0, 1, 2, 3, "1/2", "5/3", 10])) for _ in range(rng.randrange(0, 7))]
+        gv = [pb.qs(rng.choice([0, 0, 1, 2, 3, "1/2", "5/3", 10, 10**17 + 1, "1/3000000000000000007"]))
+              for _ in range(rng.randrange(0, 7))]
         if rng.random() < 0.25:
             gv = ["0/1"] * len(gv)
         if gv and rng.random() < 0.1:
@@ -211,7 +274,10 @@ def gen(rng, i, tier):
         giniq.append(gv)
     return {"btype": btype, "costs": [pb.qs(c) for c in costs], "budget": pb.qs(b), "order": order,
             "ballots": ballots, "multi": multi, "ask": ask, "satq": satq, "cats": cats,
-            "meanq": meanq, "giniq": giniq}
+            "meanq": meanq, "giniq": giniq, "big": big,
+            # numeric type of costs/budget and of the arguments of the direct helper calls: the library's own
+            # (int when integral, else mpq) or fractions.Fraction
+            "ctype": rng.choice(["auto", "auto", "fraction"]), "numtype": rng.choice(["auto", "fraction"])}
 
 
 # ----------------------------------------------------------------------------------------------
@@ -245,9 +311,39 @@ def impl(case):
     import warnings
 
     warnings.simplefilter("ignore")
+    from pabutools.election.satisfaction import SatisfactionMeasure
+    from gmpy2 import mpq
+
     btype = case["btype"]
     inst, projs = pb.make_instance(case["costs"], case["budget"], case["order"])
     n = len(projs)
+    if case.get("ctype") == "fraction":
+        for p, c in zip(projs, case["costs"]):
+            p.cost = pb.F(c)
+        inst.budget_limit = pb.F(case["budget"])
+
+    def typed(x, t):
+        x = pb.F(x)
+        if t == "fraction":
+            return x
+        if t == "mpq":
+            return mpq(x.numerator, x.denominator)
+        if t == "float":
+            return float(x)
+        return pb.num(x)
+
+    class Table_Sat(SatisfactionMeasure):
+        """satisfaction prescribed per ballot by the case (independent of the allocation)"""
+        table = {}
+
+        def sat(self, projects):
+            return Table_Sat.table[_key(pb.rank(p) for p in self.ballot)]
+
+        def sat_project(self, project):
+            return 0
+
+    if case.get("table"):
+        Table_Sat.table = {kk: typed(v, case["table"]["type"]) for kk, v in case["table"]["vals"].items()}
     cats = case.get("cats")
     if cats:
         names = ["c%d" % k for k in range(cats["ncat"])]
@@ -271,7 +367,8 @@ def impl(case):
         if n:
             ex[3] = core.qj(an.avg_project_cost(inst))
             fl[4] = core.qj(an.median_project_cost(inst))
-            fl[5] = core.qj(an.std_dev_project_cost(inst))
+            if not case.get("big"):   # np.std cancels catastrophically on costs beyond 2**53: outside the 1e-9 claim
+                fl[5] = core.qj(an.std_dev_project_cost(inst))
     if "profile" in case["ask"]:
         ex[6] = core.qj(an.avg_ballot_length(inst, prof))
         fl[7] = core.qj(an.median_ballot_length(inst, prof))
@@ -295,7 +392,7 @@ def impl(case):
 
     sq = []
     for sqc in case["satq"]:
-        cls = getattr(satmod, sqc["meas"])
+        cls = Table_Sat if sqc["meas"] == "Table_Sat" else getattr(satmod, sqc["meas"])
         alloc = [projs[j] for j in sqc["alloc"]]
         voters = [cls(inst, listprof, b).sat(alloc) for b in listprof]
         classes = [cls(inst, prof, b).sat(alloc) for b in class_ballots]
@@ -310,7 +407,11 @@ def impl(case):
         hs = []
         if nv:
             fv = [_F(v) for v in voters]
-            for k, mx in sqc["hist"]:
+            for hq in sqc["hist"]:
+                if isinstance(hq, dict):
+                    k, mx, mtype, omit = hq["k"], hq["max"], hq.get("mtype", "auto"), hq.get("omit_k", False)
+                else:
+                    (k, mx), mtype, omit = hq, "auto", False
                 if mx[0] == "lit":
                     m = pb.F(mx[1])
                 elif mx[0] == "max":
@@ -318,8 +419,13 @@ def impl(case):
                 else:
                     s = fv[mx[1] % len(fv)]
                     m = s * (k - 1) / mx[2] if s > 0 else Fraction(k - 1, mx[2])
-                res = an.satisfaction_histogram(inst, prof, alloc, cls, pb.num(m), k)
-                hs.append([k, pb.qs(m), [core.qj(x) for x in res]])
+                if mtype == "float" and not _dyadic(m):
+                    mtype = "mpq"
+                if omit and k == 21:
+                    res = an.satisfaction_histogram(inst, prof, alloc, cls, typed(m, mtype))   # default num_bins
+                else:
+                    res = an.satisfaction_histogram(inst, prof, alloc, cls, typed(m, mtype), k)
+                hs.append([k, pb.qs(m), [core.qj(x) for x in res], mtype])
         r["hist"] = hs
         sq.append(r)
     out["satq"] = sq
@@ -331,18 +437,19 @@ def impl(case):
         ok = ok and (not alloc or sum((cF[j] for j in cats["alloc"]), Fraction(0)) > 0)
         if ok:
             out["catprop"] = core.qj(an.category_proportionality(inst, prof, alloc))
+    nt = case.get("numtype", "auto")
     mq = []
     for stream in case["meanq"]:
         if stream and stream[0][1] is None:
-            arg = [pb.num(v) for v, _ in stream]
+            arg = [typed(v, nt) for v, _ in stream]
         else:
-            arg = [(pb.num(v), m) for v, m in stream]
+            arg = [(typed(v, nt), m) for v, m in stream]
         mq.append(core.qj(mean_generator(x for x in arg)))
     out["meanq"] = mq
     gq = []
     for vals in case["giniq"]:
         try:
-            gq.append(core.qj(gini_coefficient([pb.num(v) for v in vals])))
+            gq.append(core.qj(gini_coefficient([typed(v, nt) for v in vals])))
         except ValueError:
             gq.append(None)
     out["giniq"] = gq
@@ -367,7 +474,7 @@ def coq_case(case, o):
     vec = lst([pair(core.nat(k), core.qlist(v)) for k, v in sorted((int(k), v) for k, v in o["vec"].items())])
     sqs = []
     for sqc, r in zip(case["satq"], o["satq"]):
-        hist = lst([pair(core.nat(k), q(m), core.qlist(v)) for k, m, v in r["hist"]])
+        hist = lst([pair(core.nat(h[0]), q(h[1]), core.qlist(h[2])) for h in r["hist"]])
         sqs.append("(mkSatq %s %s %s %s %s %s %s %s %s %s %s)" % (
             natl(sqc["alloc"]), core.nat(MEAS_ID.get(sqc["meas"], 0)), boolc(sqc["meas"] not in FLOAT_MEAS),
             core.qlist(r["voters"]), core.qlist(r["classes"]), _oq(r.get("avg")), _oq(r.get("neh")),
@@ -406,12 +513,19 @@ def stats(cases, obs):
          "sat_queries": 0, "sat_queries_by_measure": {}, "all_zero_sat_vectors": 0, "float_measure_queries": 0,
          "empty_allocation_queries": 0, "histograms": 0, "bins_hist": {}, "voter_on_inner_bin_edge": 0,
          "voter_at_or_above_max": 0, "category_calls": 0, "votes_count_calls": 0, "even_voter_count_median": 0,
-         "mean_generator_calls": 0, "gini_calls": 0, "gini_value_error": 0}
+         "mean_generator_calls": 0, "gini_calls": 0, "gini_value_error": 0, "costs_beyond_2_53": 0}
+    d["max_satisfaction_type"] = {}
+    d["cost_type"] = {}
+    d["helper_arg_type"] = {}
+    full = {}
     for c, o in zip(cases, obs):
         if not isinstance(o, dict) or "classes" not in o:
             continue
+        d["cost_type"][c.get("ctype", "auto")] = d["cost_type"].get(c.get("ctype", "auto"), 0) + 1
+        d["helper_arg_type"][c.get("numtype", "auto")] = d["helper_arg_type"].get(c.get("numtype", "auto"), 0) + 1
         d["btype"][c["btype"]] = d["btype"].get(c["btype"], 0) + 1
         d["multiprofile"] += bool(c["multi"])
+        d["costs_beyond_2_53"] += bool(c.get("big"))
         d["some_multiplicity_ge2"] += any(m >= 2 for _, m in o["classes"])
         d["has_empty_ballot"] += any(len(b) == 0 for b in c["ballots"])
         nv = len(c["ballots"])
@@ -435,15 +549,25 @@ def stats(cases, obs):
             d["empty_allocation_queries"] += not sqc["alloc"]
             fv = [pb.F(v) for v in r["voters"]]
             d["all_zero_sat_vectors"] += bool(fv) and all(v == 0 for v in fv)
-            for k, m, _ in r["hist"]:
+            for h in r["hist"]:
+                k, m = h[0], pb.F(h[1])
+                mtype = h[3] if len(h) > 3 else "auto"
                 d["histograms"] += 1
                 d["bins_hist"][str(k)] = d["bins_hist"].get(str(k), 0) + 1
-                m = pb.F(m)
+                key = "int" if (mtype == "auto" and m.denominator == 1) else ("mpq" if mtype == "auto" else mtype)
+                d["max_satisfaction_type"][key] = d["max_satisfaction_type"].get(key, 0) + 1
+                edges = set()
                 for s in fv:
                     if s >= m:
                         d["voter_at_or_above_max"] += 1
                     elif s > 0 and (s * (k - 1) / m).denominator == 1:
                         d["voter_on_inner_bin_edge"] += 1
+                        edges.add(int(s * (k - 1) / m))
+                if edges >= set(range(1, k - 1)):
+                    full.setdefault(key, set()).add(k)
+    # bin counts for which some histogram had a voter on every interior bin edge, by type of max_satisfaction
+    d["bin_counts_with_every_inner_edge_hit"] = {t: sorted(v) for t, v in full.items()}
+    d["all_bin_counts_2_25_fully_hit_with_int_max"] = set(range(2, 26)) <= full.get("int", set())
     return d
 
 
